@@ -682,3 +682,13 @@ package mcp
 //@   ensures @temporary-session-is-closed calls(connect) == 1 && callResult(connect, 1, 1) == nil ==> calls(closeSession) == 1 && callArg(closeSession, 1, 0) == callResult(connect, 1, 0) && calls(serve) == 1
 //@   ensures @serves-only-a-connected-session calls(serve) <= 1 && (calls(serve) == 1 ==> calls(connect) == 1 && callResult(connect, 1, 1) == nil && callArg(serve, 1, 0) == callArg(connect, 1, 2))
 //@   assert at call connectStreamable: @stateless-sessions-carry-no-id allowsessionsinstateless != "1" ==> $2.SessionID == "" && $2.Stateless
+
+// The onClose hook of a stateful session: once the session is closed (DELETE, idle timeout, server-side Close) its id
+// is no longer in the table - so every later request naming it gets 404 from lookupSession - and its idle timer is
+// stopped for good.
+//@ func (*StreamableHTTPHandler).serveStatefulPOST$1 [C11]
+//@   track (*sessionInfo).stopTimer as stop
+//@   modifies *
+//@   ghost sid := old(transport.SessionID)
+//@   ensures @closed-session-is-forgotten !at(unlocked, inDom(h.sessions, sid))
+//@   ensures @closed-session-timer-is-stopped at(locked, inDom(h.sessions, sid)) ==> calls(stop) == 1 && callArg(stop, 1, 0) == at(locked, h.sessions[sid])
